@@ -26,6 +26,10 @@ type C10Params struct {
 	HelloV bool     `json:"hv"`
 	// RefServer (DTLS 1.3 without connection IDs): the real client talks to a complete server built on refdtls
 	RefServer bool `json:"ref_server,omitempty"`
+	// SeqJump (DTLS 1.2): after the first payload each side's record number is advanced by this
+	// much - for the peer indistinguishable from that many lost records - so that the nonce and
+	// additional-data layouts are exercised with sequence numbers beyond 2^16, 2^32 and 2^40
+	SeqJump uint64 `json:"seq_jump,omitempty"`
 }
 
 func c10Counts(tier string) (int, int) {
@@ -47,6 +51,9 @@ func c10Gen(r *rand.Rand, tier string, idx int) any {
 		p.Sizes = append(p.Sizes, []int{1, 2, 15, 16, 17, 31, 32, 33, 100, 255, 256, 1000, 1187, 4000, 8000}[r.IntN(15)])
 	}
 	p.RefServer = r.IntN(3) == 0
+	if r.IntN(3) == 0 {
+		p.SeqJump = []uint64{1<<16 + 3, 1<<24 + 1, 1<<32 + 7, 1<<40 + 11, 1<<47 + 5}[r.IntN(5)]
+	}
 	if r.IntN(3) == 0 {
 		p.Rules = NetRules{DropPm: 50 + r.IntN(200), DupPm: r.IntN(100), FaultsUntilIdx: 3 + r.IntN(8)}
 	}
@@ -123,9 +130,18 @@ func c10Run(rc *RunCtx, params any) {
 				return
 			}
 			wrote[ep] = append(wrote[ep], pl)
+			if i == 0 && p.SeqJump > 0 {
+				dtls.VerifSkipLocalSeq(pair.ConnOf(ep), p.SeqJump)
+				s.Probe("record-numbers-advanced")
+			}
 		}
 	}
 	s.Run(func() bool { return len(rdS.Got) >= len(p.Sizes) && len(rdC.Got) >= len(p.Sizes) }, 5*time.Second)
+	if p.SeqJump > 0 && (len(rdS.Got) < len(p.Sizes) || len(rdC.Got) < len(p.Sizes)) {
+		rc.Violate("lost-after-gap", "after a gap of %d record numbers (indistinguishable from that many lost records) the server read %d and the client %d of %d payloads on a loss-free link", p.SeqJump, len(rdS.Got), len(rdC.Got), len(p.Sizes))
+
+		return
+	}
 	// ---- build the reference session from the wire and the key log ----
 	cidToS, cidToC := len(cfg.S.CIDOf()), len(cfg.C.CIDOf())
 	col := NewHsCollector()
